@@ -101,6 +101,17 @@ class C18(Check):
             return
         c.prove('scalar_lambda_equals_constant_matrix',
                 conj([z1.shape == z2.shape] + [R(a) == R(b) for a, b in zip(z1._flat(), z2._flat())]))
+        # ... and again, in the same process, for ANOTHER value (an earlier matrix-valued solve must leave nothing behind)
+        lam2 = c.real('lam2', 0)
+        mat2 = np.ndarray._new([lam2] * (n * n), (n, n), np.float64, owner='caller')
+        ok, z3_ = guarded(c, 'scalar_lambda_equals_constant_matrix', self._zrun, c, N, W, lam2, x, u, rho)
+        if not ok:
+            return
+        ok, z4 = guarded(c, 'scalar_lambda_equals_constant_matrix', self._zrun, c, N, W, mat2, x, u, rho)
+        if not ok:
+            return
+        c.prove('scalar_lambda_equals_constant_matrix',
+                conj([z3_.shape == z4.shape] + [R(a) == R(b) for a, b in zip(z3_._flat(), z4._flat())]))
 
     def lam_type(self, c, N, W, tag):
         n = N * W
